@@ -96,16 +96,172 @@ theorem spellings_agree_counterexample (t : List Entry) (h : witnessActive t = t
   rw [hbad.2] at this
   exact Bool.noConfusion this
 
-/-- **ufunc_route.** `__array_ufunc__`: an `out` operand of a foreign type → NotImplemented; a generalised ufunc →
-`__array_function__`; `__call__` → element-wise; `reduce` → reduction; `outer` → element-wise on reshaped inputs;
-every other ufunc method (`accumulate`, `reduceat`, `at`) → NotImplemented (NumPy raises TypeError, nothing densifies). -/
-theorem ufunc_route (outOk sig : Bool) (m : String) :
-    arrayUfunc outOk sig m =
-      (if !outOk then UfuncRoute.notImplemented else if sig then .arrayFunction
+/-- **ufunc_route.** `__array_ufunc__`, in the order of the tests in the source: an `out` operand of a foreign type →
+NotImplemented; a generalised ufunc → `__array_function__`; a ufunc with several results (`nout ≠ 1`; the branch is read off the
+source: `Gen.ufuncMultiOutGuard`) → the tuple of component calls the source names for it, only for `__call__` without `out=`,
+NotImplemented otherwise; then `__call__` → element-wise; `reduce` → reduction; `outer` → element-wise on reshaped inputs; every
+other ufunc method (`accumulate`, `reduceat`, `at`) → NotImplemented (NumPy raises TypeError, nothing densifies). -/
+theorem ufunc_route (outGiven outOk sig multi : Bool) (sp : Option (List Name)) (m : String) :
+    arrayUfunc outGiven outOk sig multi sp m =
+      (if outGiven = true ∧ outOk = false then UfuncRoute.notImplemented else if sig then .arrayFunction
+       else if multi then
+         (match sp with
+          | some parts => if m = "__call__" ∧ outGiven = false then .split parts else .notImplemented
+          | none => .notImplemented)
        else if m = "outer" then .outerAsCall else if m = "__call__" then .elemwise
        else if m = "reduce" then .reduce else .notImplemented) := by
+  have hg : Gen.ufuncMultiOutGuard = true := rfl
   unfold arrayUfunc
-  cases outOk <;> cases sig <;> simp
+  rw [hg]
+  cases outGiven <;> cases outOk <;> cases sig <;> cases multi <;> cases sp <;> simp
+
+/-- the generated facts the multi-output theorems rest on (decided over the whole generated lists): no ufunc with several
+results has a core signature, and the `nout ≠ 1` branch of the source computes exactly one of them — `divmod`, as
+`(floor_divide, remainder)` in this order -/
+theorem multi_out_tables :
+    (∀ u ∈ Gen.multiOutUfuncs, Gen.gufuncs.contains u = false) ∧
+    (∀ u ∈ Gen.multiOutUfuncs,
+        Gen.ufuncMultiOutSplit.lookup u = if u = nm_divmod then some [nm_floor_divide, nm_remainder] else none) ∧
+    Gen.multiOutUfuncs.contains nm_divmod = true ∧
+    Gen.multiOutUfuncs.contains nm_floor_divide = false ∧ Gen.multiOutUfuncs.contains nm_remainder = false ∧
+    Gen.gufuncs.contains nm_floor_divide = false ∧ Gen.gufuncs.contains nm_remainder = false := by
+  decide
+
+/-- **multi_output_route.** For EVERY NumPy ufunc with several results (`divmod`, `modf`, `frexp`), every ufunc method, with or
+without `out=`: the call is `divmod` through `__call__` without `out=` — then it is computed as the pair
+`(floor_divide, remainder)` — or `__array_ufunc__` returns NotImplemented (NumPy raises TypeError: a clean rejection; the
+element-wise machinery, which handles one result only, is never entered). -/
+theorem multi_output_route (u : Name) (hu : u ∈ Gen.multiOutUfuncs) (outGiven outOk : Bool) (m : String) :
+    arrayUfuncOf u outGiven outOk m =
+      (if u = nm_divmod ∧ m = "__call__" ∧ outGiven = false then UfuncRoute.split [nm_floor_divide, nm_remainder]
+       else .notImplemented) := by
+  have hsig := multi_out_tables.1 u hu
+  have hsp := multi_out_tables.2.1 u hu
+  have hmem : Gen.multiOutUfuncs.contains u = true := by simpa using hu
+  unfold arrayUfuncOf
+  rw [ufunc_route, hsig, hsp, hmem]
+  by_cases hd : u = nm_divmod <;> cases outGiven <;> cases outOk <;> simp [hd]
+
+/-- **divmod_route.** `np.divmod(*ops)` (method `__call__`, no `out=`), for ANY operand list: the result is the pair of the
+results of `np.floor_divide(*ops)` and `np.remainder(*ops)` — the SAME operands in the SAME order, quotient first — and each of
+the two is an ordinary element-wise call. -/
+theorem divmod_route {α : Type} (ops : List α) (fuel : Nat) (outOk : Bool) :
+    ufuncResult (fuel + 2) nm_divmod "__call__" false outOk ops =
+      UResult.tuple [ufuncResult (fuel + 1) nm_floor_divide "__call__" false true ops,
+                     ufuncResult (fuel + 1) nm_remainder "__call__" false true ops] ∧
+    ufuncResult (fuel + 1) nm_floor_divide "__call__" false true ops = UResult.one nm_floor_divide .elemwise ops ∧
+    ufuncResult (fuel + 1) nm_remainder "__call__" false true ops = UResult.one nm_remainder .elemwise ops := by
+  have hd : arrayUfuncOf nm_divmod false outOk "__call__" = .split [nm_floor_divide, nm_remainder] := by
+    rw [multi_output_route nm_divmod (by simpa using multi_out_tables.2.2.1)]; simp
+  have hf : arrayUfuncOf nm_floor_divide false true "__call__" = .elemwise := by
+    unfold arrayUfuncOf; rw [ufunc_route, multi_out_tables.2.2.2.1, multi_out_tables.2.2.2.2.2.1]; simp
+  have hr : arrayUfuncOf nm_remainder false true "__call__" = .elemwise := by
+    unfold arrayUfuncOf; rw [ufunc_route, multi_out_tables.2.2.2.2.1, multi_out_tables.2.2.2.2.2.2]; simp
+  refine ⟨?_, ?_, ?_⟩
+  · rw [ufuncResult, hd]; simp
+  · rw [ufuncResult, hf]
+  · rw [ufuncResult, hr]
+
+/-- **divmod_spellings_agree.** The Python spellings: `divmod(x, y)` calls `__divmod__`, `x // y` calls `__floordiv__`, `x % y`
+calls `__mod__` (and the reflected three when the sparse array is the right operand).  In NumPy's operator mixin (table read
+from the installed NumPy) the three special methods of either role call three ufuncs with the same role — the same operand
+order — and the routing of the first is the pair of the routings of the other two: `divmod(x, y) == (x // y, x % y)` holds
+spelling by spelling, as a statement about `__array_ufunc__`. -/
+theorem divmod_spellings_agree {α : Type} (ops : List α) (fuel : Nat) :
+    ∀ tr ∈ [(nm___divmod__, nm___floordiv__, nm___mod__), (nm___rdivmod__, nm___rfloordiv__, nm___rmod__)],
+      ∃ ud uf um role, opUfunc tr.1 = some (ud, role) ∧ opUfunc tr.2.1 = some (uf, role) ∧ opUfunc tr.2.2 = some (um, role) ∧
+        ufuncResult (fuel + 2) ud "__call__" false true ops =
+          UResult.tuple [ufuncResult (fuel + 1) uf "__call__" false true ops, ufuncResult (fuel + 1) um "__call__" false true ops] := by
+  intro tr htr
+  simp only [List.mem_cons, List.mem_nil_iff, or_false] at htr
+  rcases htr with rfl | rfl
+  · exact ⟨nm_divmod, nm_floor_divide, nm_remainder, nm_forward, by decide, by decide, by decide, (divmod_route ops fuel true).1⟩
+  · exact ⟨nm_divmod, nm_floor_divide, nm_remainder, nm_reflected, by decide, by decide, by decide, (divmod_route ops fuel true).1⟩
+
+/-- **multi_output_rejected.** Every other way of calling a ufunc with several results — `np.modf(x)`, `np.frexp(x)`, any of the
+three through `reduce` / `outer` / `accumulate` / `at`, `np.divmod(x, y, out=…)` — is answered with NotImplemented by every
+sparse operand, for any operands. -/
+theorem multi_output_rejected {α : Type} (u : Name) (hu : u ∈ Gen.multiOutUfuncs) (outGiven outOk : Bool) (m : String) (ops : List α)
+    (fuel : Nat) (h : ¬ (u = nm_divmod ∧ m = "__call__" ∧ outGiven = false)) :
+    ufuncResult (fuel + 1) u m outGiven outOk ops = UResult.one u .notImplemented ops := by
+  rw [ufuncResult, multi_output_route u hu, if_neg h]
+
+/-- non-vacuity: `modf` and `frexp` are in the generated list of multi-result ufuncs and are rejected; `divmod` with `out=` too -/
+example : nm_modf ∈ Gen.multiOutUfuncs ∧ nm_frexp ∈ Gen.multiOutUfuncs ∧
+    arrayUfuncOf nm_modf false true "__call__" = .notImplemented ∧ arrayUfuncOf nm_frexp false true "__call__" = .notImplemented ∧
+    arrayUfuncOf nm_divmod true true "__call__" = .notImplemented ∧ arrayUfuncOf nm_divmod false true "reduce" = .notImplemented ∧
+    arrayUfuncOf nm_add false true "__call__" = .elemwise := by
+  refine ⟨by decide, by decide, ?_, ?_, ?_, ?_, ?_⟩
+  · rw [multi_output_route _ (by decide)]; simp; decide
+  · rw [multi_output_route _ (by decide)]; simp; decide
+  · rw [multi_output_route _ (by decide)]; simp
+  · rw [multi_output_route _ (by decide)]; simp
+  · unfold arrayUfuncOf; rw [ufunc_route]; simp; decide
+
+/-! ### `out=` -/
+
+/-- **out_trial_deterministic.** Whether the out= path refuses a call in its trial step does not depend on the contents of
+uninitialised memory: for every ufunc behaviour and any two memory contents the outcome is the same (the trial operands are
+built with `np.ones`, read off the source) — `x **= y` and `np.power(x, y, out=x)` cannot fail on one run and work on the next. -/
+theorem out_trial_deterministic (raisesOn : Int → Bool) (mem mem' : Int) :
+    outTrialRaises raisesOn mem = outTrialRaises raisesOn mem' := by
+  have h : Gen.ufuncOutTrialOnes = true := rfl
+  simp [outTrialRaises, h]
+
+/-- the three class names are three names -/
+theorem cls_distinct : nm_COO ≠ nm_GCXS ∧ nm_COO ≠ nm_DOK ∧ nm_GCXS ≠ nm_DOK ∧ nm_GCXS ≠ nm_COO ∧ nm_DOK ≠ nm_COO ∧ nm_DOK ≠ nm_GCXS := by
+  decide
+
+/-- **out_keeps_format.** `ufunc(…, out=(out,))` and `out op= y`, for EVERY format of `out` (COO, GCXS with any compressed
+axes, DOK) and EVERY thing the computation can produce (a dense array, or a sparse array of any format), with the out= block
+read off the source (`Gen.ufuncOutSteps`): the call raises ValueError — exactly when the shapes differ or the result is dense —
+or `out` ends up holding the attributes of an array of ITS OWN class: those of the result itself when the result already has
+that class, else those of the result converted to exactly the format of `out` (a GCXS keeps its compressed axes).  Never an
+object of one class carrying another format's attributes, never a dense array in a sparse object, no internal error. -/
+theorem out_keeps_format (o : Fmt) (r : Computed) (shapeOk : Bool) (dflt : List Nat) :
+    match outStore Gen.ufuncOutSteps o r shapeOk dflt with
+    | .error e => e = Err.value ∧ (shapeOk = false ∨ r = .dense)
+    | .ok s => shapeOk = true ∧ s.cls = o.cls ∧ s.wellFormed = true ∧
+        ∃ f, r = .sparse f ∧ s.holds = .sparse (if f.cls = o.cls then f else o) := by
+  have hs : Gen.ufuncOutSteps = [.unpack, .shapeCheck, .refuseDense, .convertFormat true, .shallowCopy, .returnOut] := rfl
+  rw [hs]
+  cases shapeOk
+  · simp [outStore, outRun, outStep]
+  · cases r with
+    | dense => simp [outStore, outRun, outStep]
+    | sparse f =>
+      obtain ⟨h1, h2, h3, h4, h5, h6⟩ := cls_distinct
+      cases o <;> cases f <;> simp [outStore, outRun, outStep, Fmt.cls, Stored.wellFormed, h1, h2, h3, h4, h5, h6]
+
+/-- **inplace_every_pair.** `a op= b` / `np.<ufunc>(a, b, out=(a,))` for every ORDERED PAIR of formats (each of COO, GCXS with any
+compressed axes, DOK): the element-wise machinery returns the format `elemwiseFormat [a, b]`; whatever that is, the target
+keeps its class and ends up holding an array of that class — `a` itself stays a working array of its original format. -/
+theorem inplace_every_pair (fa fb : Fmt) (dflt : List Nat) :
+    ∃ f, outStore Gen.ufuncOutSteps fa (.sparse (elemwiseFormat dflt [fa, fb])) true dflt = .ok { cls := fa.cls, holds := .sparse f } ∧
+      f.cls = fa.cls ∧ (fb.cls ≠ fa.cls → f = fa) := by
+  have h := out_keeps_format fa (.sparse (elemwiseFormat dflt [fa, fb])) true dflt
+  cases hst : outStore Gen.ufuncOutSteps fa (.sparse (elemwiseFormat dflt [fa, fb])) true dflt with
+  | error e => rw [hst] at h; simp at h
+  | ok s =>
+    rw [hst] at h
+    obtain ⟨_, hcls, _, f, hf, hholds⟩ := h
+    simp only [Computed.sparse.injEq] at hf
+    refine ⟨if f.cls = fa.cls then f else fa, ?_, ?_, ?_⟩
+    · cases s; simp_all
+    · by_cases hc : f.cls = fa.cls <;> simp [hc]
+    · intro hne
+      subst hf
+      obtain ⟨h1, h2, h3, h4, h5, h6⟩ := cls_distinct
+      cases fa <;> cases fb <;> simp_all [elemwiseFormat, Fmt.cls]
+
+/-- non-vacuity of `out_keeps_format`: `gcxs(axes 1) += coo` stores a GCXS with axes 1; a dense result is a ValueError; and the
+out= block WITHOUT the two repaired statements would have left a GCXS object holding COO attributes -/
+example :
+    outStore Gen.ufuncOutSteps (.gcxs [1]) (.sparse .coo) true [0] = .ok { cls := nm_GCXS, holds := .sparse (.gcxs [1]) } ∧
+    outStore Gen.ufuncOutSteps .dok .dense true [0] = .error Err.value ∧
+    outStore [.unpack, .shapeCheck, .shallowCopy, .returnOut] (.gcxs [1]) (.sparse .coo) true [0] = .ok { cls := nm_GCXS, holds := .sparse .coo } ∧
+    (Stored.mk nm_GCXS (.sparse .coo)).wellFormed = false := by
+  decide
 
 theorem outerWalk_fst (l : List (Nat × Nat)) (c : Nat) : (outerWalk l c).map (·.1) = l.map (·.1) := by
   induction l generalizing c with
